@@ -170,13 +170,13 @@ Definition prop_case (c : case) : bool :=
       match res with
       | Ok _ =>
           (* when scanned blocks lie above the target: afterwards no pool holds a checkpoint above
-             it, and every pool is checkpointed at it with the position of the given chain state *)
+             it, and a checkpoint at it has the position of the given chain state *)
           match zmax_list blocks with
           | Some last =>
               if target <? last then
                 let '(a, b, c) := post in let '(za, zb, zc) := sizes in
-                let one s z := forallb (fun e => fst e <=? target) (ck s)
-                               && existsb (fun e => (fst e =? target) && opz_eqb (snd e) (frontier_pos z)) (ck s) in
+                let one s z := forallb (fun e => (fst e <=? target)
+                                                 && (negb (fst e =? target) || opz_eqb (snd e) (frontier_pos z))) (ck s) in
                 one a za && one b zb && one c zc
               else w3_eqb pre post
           | None => w3_eqb pre post
